@@ -209,6 +209,14 @@ impl MinCostFlowSolver {
             .unwrap()
             .maximal_formation_count()
             .unwrap_or(100) as UpperBound;
+        // vehicles on their way to the same maintenance slot are not coupled, so an edge into a
+        // slot must be able to carry one vehicle per assigned track
+        let maximal_flow_between_nodes = maintenance_slots
+            .values()
+            .map(|&count| count as UpperBound)
+            .max()
+            .unwrap_or(0)
+            .max(maximal_formation_count_for_vehicle_type);
 
         let trip_node_count =
             self.network.service_nodes(vehicle_type).count() + self.network.depots_iter().count();
@@ -333,17 +341,14 @@ impl MinCostFlowSolver {
                     + idle_time_cost;
 
                 cost_overflow_checker = cost_overflow_checker
-                    .checked_add(
-                        cost.checked_mul(maximal_formation_count_for_vehicle_type)
-                            .unwrap(),
-                    )
+                    .checked_add(cost.checked_mul(maximal_flow_between_nodes).unwrap())
                     .expect("overflow in cost_overflow_checker");
 
                 edges.insert(
                     builder.add_edge(pred_right_rsnode, *left_rsnode),
                     EdgeLabel {
                         lower_bound: 0,
-                        upper_bound: maximal_formation_count_for_vehicle_type,
+                        upper_bound: maximal_flow_between_nodes,
                         cost,
                     },
                 );
